@@ -470,6 +470,51 @@ fn run_history(
             }
             None => {}
         }
+        if let Op::Insert { info, .. } = &step.op {
+            let admitted = matches!(step.insert, Some(Outcome::Inserted));
+            for (pos, v) in info.variants.iter().enumerate() {
+                tot.add(&format!("insert.submitted.variant.{v}"), 1);
+                if admitted {
+                    tot.add(&format!("insert.admitted.variant.{v}"), 1);
+                    if pos > 0 {
+                        tot.add(&format!("insert.admitted.variant_not_first.{v}"), 1);
+                    }
+                }
+            }
+            let kind = |d: &Vec<u8>| if d.is_empty() { "coin" } else { "data" };
+            for m in &info.msgs {
+                for k in step.before.txs.values() {
+                    if k.id == info.id {
+                        continue;
+                    }
+                    for km in &k.msgs {
+                        if km.nonce == m.nonce {
+                            tot.add(
+                                &format!(
+                                    "insert.message_collision.{}_vs_pooled_{}{}",
+                                    kind(&m.data),
+                                    kind(&km.data),
+                                    if admitted { ".admitted" } else { ".rejected" }
+                                ),
+                                1,
+                            );
+                        }
+                    }
+                }
+            }
+            if admitted {
+                let p_owner = txgen::predicate_owner();
+                if info.coins.iter().any(|(u, f)| {
+                    f.owner == p_owner && step.before.contains(u.tx_id())
+                }) && info.variants.contains(&"coin_predicate")
+                {
+                    tot.add("insert.admitted_with_pool_parent_via_predicate_input", 1);
+                }
+                if info.contracts.len() >= 2 {
+                    tot.add("insert.admitted_with_2plus_contract_inputs", 1);
+                }
+            }
+        }
         for (_, o) in &step.followups {
             match o {
                 Outcome::Inserted => tot.add("followup.inserted", 1),
@@ -565,6 +610,13 @@ fn run_history(
                         .any(|t| t.contracts.iter().any(|c| excluded.contains(c)))
                     {
                         tot.add("extract.excluded_contract_binding", 1);
+                    }
+                    if left.iter().any(|t| {
+                        t.contracts.len() >= 2
+                            && !excluded.contains(&t.contracts[0])
+                            && t.contracts[1..].iter().any(|c| excluded.contains(c))
+                    }) {
+                        tot.add("extract.excluded_only_via_non_first_contract_input", 1);
                     }
                     let gb = Graph::of(&step.before);
                     if step
@@ -833,12 +885,34 @@ fn thresholds(report: &Report, focus: Focus, selftest: bool) {
     report.require("ops.expire", 4_000);
     report.require("insert.outcome.inserted", 50_000);
     report.require("steps.nontrivial", 8_000);
+    for v in [
+        "coin_signed",
+        "coin_predicate",
+        "contract",
+        "message_coin_signed",
+        "message_coin_predicate",
+        "message_data_signed",
+        "message_data_predicate",
+    ] {
+        report.require(&format!("insert.admitted.variant.{v}"), 1_000);
+    }
+    report.require("insert.admitted_with_2plus_contract_inputs", 1_000);
+    report.require("insert.admitted_with_pool_parent_via_predicate_input", 1_000);
     match focus {
         Focus::C16 => {
             report.require("insert.admitted_over_collision", 7_000);
             report.require("insert.admitted_with_space_eviction", 3_000);
             report.require("pool.full_snapshots", 20_000);
             report.require("sink.squeezed_out", 25_000);
+            for k in [
+                "data_vs_pooled_data",
+                "data_vs_pooled_coin",
+                "coin_vs_pooled_data",
+                "coin_vs_pooled_coin",
+            ] {
+                report.require(&format!("insert.message_collision.{k}.rejected"), 100);
+                report.require(&format!("insert.message_collision.{k}.admitted"), 30);
+            }
         }
         Focus::C17 => {
             report.require("pool.snapshots_with_dependencies", 100_000);
@@ -860,6 +934,7 @@ fn thresholds(report: &Report, focus: Focus, selftest: bool) {
             report.require("extract.min_price_binding", 9_000);
             report.require("extract.excluded_contract_binding", 400);
             report.require("extract.with_dependent_tx", 2_000);
+            report.require("extract.excluded_only_via_non_first_contract_input", 100);
         }
         Focus::C19 => {
             report.require("insert.plain_case", 25_000);
